@@ -144,6 +144,19 @@ def run_check(prop, tier, seed):
             except coqrun.CoqError as e:
                 broken.append(('assumptions', 'Print Assumptions', str(e)))
 
+    # 2b. thorough tier: independent re-check with coqchk (kernel re-typecheck of every .vo in the cone)
+    if not ctx.quick and not broken:
+        try:
+            rc, summary, tail = coqrun.coqchk('Cirbo.' + prop.PROPERTY_FILE[:-2].replace('/', '.'))
+            ev['coqchk'] = {'exit': rc, 'summary': summary}
+            axioms = [a for a in summary.get('Axioms', []) if a and a != '<none>']
+            if rc != 0:
+                broken.append(('coqchk', 'coqchk failed', tail))
+            elif axioms and not set(axioms) <= set(getattr(prop, 'ALLOWED_AXIOMS', [])):
+                broken.append(('coqchk', 'axioms', str(axioms)))
+        except Exception as e:  # noqa: BLE001
+            ev['coqchk'] = {'error': repr(e)}
+
     # 3. correspondence between the model and the implementation
     corr = CorrResult()
     model_ok = not any(b[0] in ('translator', 'proof') for b in broken)
